@@ -145,11 +145,11 @@ pub fn run(ctx: &Ctx) {
     ctx.exhausted("all u16 and i16 values");
 
     let scfg = ShapeCfg { encoder_only: true, ..ShapeCfg::default() };
-    let n = ctx.tier.pick(60_000, 3_000_000);
+    let n = ctx.tier.pick(600_000, 8_000_000);
     ctx.par_proptest("random-trees", n, || gen::arb_typed(scfg.clone(), ValCfg::default()), |(s, v), l| check(s, v, l));
 
     // integers of every width, stratified by bit length
-    let n = ctx.tier.pick(40_000, 1_500_000);
+    let n = ctx.tier.pick(800_000, 8_000_000);
     ctx.par_proptest(
         "stratified-integers",
         n,
@@ -171,7 +171,7 @@ pub fn run(ctx: &Ctx) {
     );
 
     // Display-collected strings around the 127/128 length boundary, split into pieces
-    let n = ctx.tier.pick(6_000, 200_000);
+    let n = ctx.tier.pick(60_000, 600_000);
     ctx.par_proptest(
         "display-strings",
         n,
